@@ -287,3 +287,13 @@ package utils
 //@   assumed
 //@   pure
 //@ end
+
+// ---- set helpers (C06 fillnull): ASSUMED functional contract of a generic
+// helper (map iteration is outside the verifier's subset): the set becomes the
+// union of itself and the keys of source.
+//@ func AddMapKeysToSet
+//@   assumed
+//@   requires set != nil
+//@   modifies mapof(set)
+//@   ensures forallstr(c, haskey(set, c) == (old(haskey(set, c)) || haskey(source, c)))
+//@ end
